@@ -65,3 +65,15 @@ def downStmts (p : List Change) : List Stmt := p.reverse.flatMap (·.reverse)
 def down (s : Db) (p : List Change) : Db := (downStmts p).foldl exec s
 
 end Atlas.Reverse
+
+/-! ### one ALTER TABLE statement built from several changes (MySQL / PostgreSQL `alterTable`)
+
+The planner folds a `reversible` flag over the changes of one `ModifyTable`: the statement carries a
+reverse exactly when every change in it can be inverted (`inv c`; e.g. an added CHECK whose name
+the server generates cannot). -/
+namespace Atlas.Reverse
+
+/-- the loop of `alterTable`: `reversible = reversible && inv c` for every change. -/
+def alterFlag (inv : α → Bool) (cs : List α) : Bool := cs.foldl (fun r c => r && inv c) true
+
+end Atlas.Reverse
